@@ -312,13 +312,17 @@ def bayesCol (ax : List Rat) (pyx : List (List Rat)) (y : Nat) : Option (List Ra
   else some (List.zipWith (fun a p => a * p / q) ax col)
 
 /-- checks on one inverted table (list over y of (b over x, u)) -/
-def checkInverse (pfx : String) (τ : Rat) (ax ay : List Rat) (cs : List (List Rat × Rat))
+def checkInverse (pfx : String) (τ eps : Rat) (ax ay : List Rat) (cs : List (List Rat × Rat))
     (inv : List (List Rat × Rat)) : List String :=
   let pyx := condProj cs ay
   let n := ax.length
   (List.range inv.length).flatMap fun y =>
     let w := inv.getD y ([], 0)
     let wf := check (pfx ++ ".wf") (wfSimplex (τ * (n + 1)) w.1 w.2)
+    -- a likelihood column that is non-zero but entirely inside the zero-tolerance band (0, eps] is classified
+    -- by the crate's is_zero guard (treated as impossible, cf. C11): only well-formedness is required there
+    let colB := pyx.map fun row => row.getD y 0
+    if colB.all (fun p => decide (absQ p ≤ eps)) && colB.any (fun p => decide (p ≠ 0)) then wf else
     match bayesCol ax pyx y with
     | none => wf ++ check (pfx ++ ".zero_column_vacuous") (closeQ τ w.2 1 && w.1.all (fun v => closeQ τ v 0))
     | some post =>
@@ -342,10 +346,10 @@ def oracleC05 (c : Case) : Option (List String) :=
     let cs := condAt xs 0 n m
     let ax := slice xs (n * (m + 1)) n
     let ay := slice xs (n * (m + 1) + n) m
-    if !(condWf 0 cs && wfBaseRate 0 ax && wfBaseRate 0 ay && ax.all (fun v => decide (0 < v)) && ay.all (fun v => decide (0 < v))) then none else
+    if !(condWf 0 cs && wfBaseRate (4 * c.eps) ax && wfBaseRate (4 * c.eps) ay && ax.all (fun v => decide (0 < v)) && ay.all (fun v => decide (0 < v))) then none else
     withValue c "C05" fun out =>
       let inv := condAt out 0 m n
-      checkInverse "C05" τ ax ay cs inv
+      checkInverse "C05" τ c.eps ax ay cs inv
   | "abduce" | "abduce_with" =>
     let sb := slice xs 0 m
     let su := xs.getD m 0
@@ -373,9 +377,12 @@ def oracleC05 (c : Case) : Option (List String) :=
           | some v, some post => some (List.zipWith (fun s p => s + py.getD y 0 * p) v post)
           | some v, none => some (List.zipWith (fun s a => s + py.getD y 0 * a) v ax)
           | none, _ => none) (some (ax.map fun _ => 0))
+        let bandCol := (List.range m).any fun y =>
+          let col := pyx.map fun row => row.getD y 0
+          col.all (fun p => decide (absQ p ≤ c.eps)) && col.any (fun p => decide (p ≠ 0))
         check "C05.abduce_wf" (wfSimplex (τ * (n + 1)) b u)
           ++ check "C05.abduce_base_rate" (closeList τ a ax)
-          ++ (match want with
+          ++ (match (if bandCol then none else want) with
               | some w => check "C05.abduce_projection" (closeList τ (projQ b u ax) w)
               | none => [])
   | _ => none
